@@ -9,6 +9,8 @@ import (
 )
 
 // lookupType resolves "pkg.Type" as seen from the package of a contract file.
+func (e *Env) LookupType(fromPkg, name string) (types.Type, error) { return e.lookupType(fromPkg, name) }
+
 func (e *Env) lookupType(fromPkg, name string) (types.Type, error) {
 	parts := strings.SplitN(name, ".", 2)
 	if len(parts) != 2 {
